@@ -85,6 +85,30 @@ def known_or_raise(pid, v: Violation):
     return "known-finding:" + e["id"]
 
 
+def sut_exception_as_violation(exc, case=None):
+    """An exception that escapes check(): whose code raised it?  The deepest traceback frame that belongs either to the annet package
+    or to /verif decides: annet -> the code under test failed on an input of the property's domain (the checks catch every exception
+    the properties allow - GeneratorError, ParserError, ... - themselves), reported as a violation 'unexpected-exception';
+    /verif -> harness error."""
+    import annet
+    root = os.path.dirname(os.path.abspath(annet.__file__)) + os.sep
+    gens = os.path.join(os.path.dirname(os.path.dirname(root)), "annet_generators") + os.sep
+    mine = os.path.join(VERIF, "vf") + os.sep
+    owner = None
+    tb = exc.__traceback__
+    while tb is not None:
+        fn = os.path.abspath(tb.tb_frame.f_code.co_filename)
+        if fn.startswith(root) or fn.startswith(gens):
+            owner = ("annet", fn[len(os.path.dirname(os.path.dirname(root))) + 1:], tb.tb_lineno)
+        elif fn.startswith(mine):
+            owner = ("vf", fn, tb.tb_lineno)
+        tb = tb.tb_next
+    if owner is None or owner[0] != "annet":
+        return None
+    return Violation("unexpected-exception", f"{type(exc).__name__}: {str(exc)[:300]} raised in {owner[1]}:{owner[2]} on an input of the "
+                     f"property's domain", {"exception": type(exc).__name__, "where": f"{owner[1]}:{owner[2]}", "case": case})
+
+
 # ------------------------------------------------------------------ coverage-guided phase
 def run_fuzz(mod, tier, seed, runs):
     """K parallel libFuzzer campaigns (atheris) over mod.fuzz_decode + mod.check, each from an empty corpus in a fresh directory with
@@ -181,7 +205,15 @@ class ShardState:
         """returns None or Violation (unlisted)."""
         self.evaluations += 1
         try:
-            labels = self._check_limited(case)
+            try:
+                labels = self._check_limited(case)
+            except (Violation, HarnessError):
+                raise
+            except Exception as exc:
+                v = sut_exception_as_violation(exc, case)
+                if v is None:
+                    raise       # raised by the harness' own code: a harness error (exit 2), never a violation
+                raise v from exc
         except Violation as v:
             e = match_finding(self.findings, v)
             if e is not None:
@@ -338,10 +370,31 @@ def run_property(modname, tier, seed, replay=None):
     findings = load_findings(pid)
     t0 = time.time()
 
+    # fresh-process baselines (C17, C20) are recomputed from the CURRENT tree at the start of every run, replay runs included: a file left
+    # under /verif/.scratch by an earlier run (of a different tree) must never serve as the oracle
+    if hasattr(mod, "prepare"):
+        try:
+            mod.prepare(tier, seed)
+        except Exception as e:
+            if not replay:
+                write_evidence(pid, tier, seed, getattr(mod, "LEVEL", "exploration"), {"evaluations": 0, "distinct_nontrivial": 0, "rule": mod.RULE,
+                               "samples": []}, [], time.time() - t0, 0)
+            print(f"[{pid}] HARNESS ERROR in prepare (not a violation):\n" + "".join(traceback.format_exception(type(e), e, e.__traceback__)),
+                  file=sys.stderr)
+            return 2
+
     if replay:
         case = replay_file(mod, replay)
         try:
-            labels = mod.check(case)
+            try:
+                labels = mod.check(case)
+            except (Violation, HarnessError):
+                raise
+            except Exception as exc:
+                v2 = sut_exception_as_violation(exc, case)
+                if v2 is None:
+                    raise
+                raise v2 from exc
         except Violation as v:
             e = match_finding(findings, v)
             if e is not None:
@@ -372,15 +425,6 @@ def run_property(modname, tier, seed, replay=None):
                              "source": "regress/" + fn}
                 break
 
-    if violation is None and hasattr(mod, "prepare"):
-        try:
-            mod.prepare(tier, seed)   # e.g. fresh-process baselines written under /verif/.scratch for the shards to read
-        except Exception as e:
-            write_evidence(pid, tier, seed, getattr(mod, "LEVEL", "exploration"), {"evaluations": 0, "distinct_nontrivial": 0, "rule": mod.RULE,
-                           "samples": []}, [], time.time() - t0, 0)
-            print(f"[{pid}] HARNESS ERROR in prepare (not a violation):\n" + "".join(traceback.format_exception(type(e), e, e.__traceback__)),
-                  file=sys.stderr)
-            return 2
     nshards = int(os.environ.get("VF_SHARDS", getattr(mod, "SHARDS", 16)))
     budget = int(os.environ.get("VF_BUDGET", mod.BUDGET[tier]))
     per = (budget + nshards - 1) // nshards if budget else 0
